@@ -62,6 +62,10 @@ Definition has_node (v : atom) (st : store) (nm : nmap) : bool :=
   | _ => false
   end.
 
+(* [target is None or target == '']: a missing concept (numbers, even 0, are written: F27 repair) *)
+Definition missing_concept (a : atom) : bool :=
+  match a with ANone => true | AStr [] => true | _ => false end.
+
 (* ---- _configure_node ----  returns (surprising, data, store, nodemap) *)
 Fixpoint cnode (f : nat) (m : model) (var : atom) (id : nat) (surp : bool)
   (data : list datum) (st : store) (nm : nmap) : outcome (bool * list datum * store * nmap) :=
@@ -81,7 +85,7 @@ Fixpoint cnode (f : nat) (m : model) (var : atom) (id : nat) (surp : bool)
           | None => Ok (true, d :: data', st, nm)
           | Some (role, target, push, surp) =>
               if str_eqb role INSTANCE then
-                if falsy target then cnode f' m var id surp data' st nm
+                if missing_concept target then cnode f' m var id surp data' st nm
                 else cnode f' m var id surp data' (add_edge_front id (SLASHS, CA target, es) st) nm
               else
                 let push := push && negb (has_node target st nm) in
